@@ -79,6 +79,13 @@ func init() {
 		return v
 	}
 	envFuncs["fmt.Errorf"] = envFuncs["errors.New"]
+	envFuncs["bytes.Equal"] = func(fc *FnCtx, fr *Frame, st *State, reach string, args []Val, call ssa.CallInstruction) Val {
+		r := fc.sc.fresh("bytes_eq", "Bool")
+		fc.sc.assume(tImp(r, tEq(args[0].Len, args[1].Len)))
+		fc.sc.assume(tImp(tAnd(tEq(args[0].Len, "0"), tEq(args[1].Len, "0")), r))
+		return boolVal(r)
+	}
+	timeEnv()
 	envFuncs["(*sync.Pool).Put"] = nop
 	envFuncs["(*sync.Pool).Get"] = func(fc *FnCtx, fr *Frame, st *State, reach string, args []Val, call ssa.CallInstruction) Val {
 		v := fc.freshVal(st, call.Common().Signature().Results().At(0).Type(), "pooled")
@@ -127,5 +134,62 @@ func init() {
 		fc.sc.assume(tAnd(sx("<=", "1", n), sx("<=", n, "10")))
 		fc.havocElems(st, b)
 		return intVal(types.Typ[types.Int], n)
+	}
+}
+
+
+// ---- time.Time: an instant is modelled by its Unix nanoseconds tnanos(wall, ext) ----
+
+func tnanos(fc *FnCtx, t Val) string {
+	fc.sc.declareFun("tnanos", []string{"Int", "Int"}, "Int")
+	if t.K != KStruct || len(t.Fs) < 2 {
+		unsup("time value of kind %d", t.K)
+	}
+	return sx("tnanos", t.Fs[0].S, t.Fs[1].S)
+}
+
+func freshTime(fc *FnCtx, st *State, tt types.Type, nanos string) Val {
+	v := fc.freshVal(st, tt, "time")
+	if nanos != "" {
+		fc.sc.assume(tEq(tnanos(fc, v), nanos))
+	}
+	return v
+}
+
+const maxI64 = "9223372036854775807"
+const minI64 = "(- 9223372036854775808)"
+
+func timeEnv() {
+	res := func(call ssa.CallInstruction) types.Type { return resultType(call.Common().Signature().Results()) }
+	envFuncs["time.Now"] = func(fc *FnCtx, fr *Frame, st *State, reach string, args []Val, call ssa.CallInstruction) Val {
+		return freshTime(fc, st, res(call), "")
+	}
+	envFuncs["time.Unix"] = func(fc *FnCtx, fr *Frame, st *State, reach string, args []Val, call ssa.CallInstruction) Val {
+		return freshTime(fc, st, res(call), sx("+", sx("*", args[0].S, "1000000000"), args[1].S))
+	}
+	envFuncs["(time.Time).UnixNano"] = func(fc *FnCtx, fr *Frame, st *State, reach string, args []Val, call ssa.CallInstruction) Val {
+		return intVal(res(call), wrapTerm(types.Typ[types.Int64], tnanos(fc, args[0])))
+	}
+	envFuncs["(time.Time).Before"] = func(fc *FnCtx, fr *Frame, st *State, reach string, args []Val, call ssa.CallInstruction) Val {
+		return boolVal(sx("<", tnanos(fc, args[0]), tnanos(fc, args[1])))
+	}
+	envFuncs["(time.Time).After"] = func(fc *FnCtx, fr *Frame, st *State, reach string, args []Val, call ssa.CallInstruction) Val {
+		return boolVal(sx(">", tnanos(fc, args[0]), tnanos(fc, args[1])))
+	}
+	envFuncs["(time.Time).Equal"] = func(fc *FnCtx, fr *Frame, st *State, reach string, args []Val, call ssa.CallInstruction) Val {
+		return boolVal(tEq(tnanos(fc, args[0]), tnanos(fc, args[1])))
+	}
+	envFuncs["(time.Time).Sub"] = func(fc *FnCtx, fr *Frame, st *State, reach string, args []Val, call ssa.CallInstruction) Val {
+		d := fc.nameTerm("tsub", "Int", sx("-", tnanos(fc, args[0]), tnanos(fc, args[1])))
+		// saturating, as in package time
+		return intVal(res(call), tIte(sx(">", d, maxI64), maxI64, tIte(sx("<", d, minI64), minI64, d)))
+	}
+	envFuncs["(time.Time).Add"] = func(fc *FnCtx, fr *Frame, st *State, reach string, args []Val, call ssa.CallInstruction) Val {
+		return freshTime(fc, st, res(call), sx("+", tnanos(fc, args[0]), args[1].S))
+	}
+	envFuncs["time.Since"] = func(fc *FnCtx, fr *Frame, st *State, reach string, args []Val, call ssa.CallInstruction) Val {
+		now := freshTime(fc, st, args[0].T, "")
+		d := fc.nameTerm("tsince", "Int", sx("-", tnanos(fc, now), tnanos(fc, args[0])))
+		return intVal(res(call), tIte(sx(">", d, maxI64), maxI64, tIte(sx("<", d, minI64), minI64, d)))
 	}
 }
